@@ -42,6 +42,18 @@ CHECKS = {
              "release-and-wait, broadcast wakes all waiters), OS fairness (eventual scheduling of an enabled thread), sequential consistency at "
              "block granularity (C11 races / x86-TSO not modelled), one writer thread, readers registered before the concurrent phase. Axioms: none.",
         technique="Coq invariant over an interleaving system (all schedules) + bounded-progress lemmas; lock-step replay of the real code under a deterministic scheduler"),
+    "C11": dict(
+        family="hal", design="6.11",
+        text="Machine-checked proof (Coq, induction over every finite HAL call sequence and every driver response sequence incl. unknown "
+             "status codes and NULL function pointers) over an executable model of all exported functions of hal/camera.c, hal/storage.c and "
+             "driver.c that emits driver calls and every read/write of the device object: stop/get_frame/append only in Running, exactly "
+             "one close per successful open and no event on the object afterwards (not even a memory write), reported state = fold of a "
+             "table over the driver's responses. Tied to the code on every run by running the real HAL against a scripted mock driver "
+             "whose close frees the object (ASan) on 30k random + all length-4 sequences and comparing call logs, return codes and states "
+             "with the extracted model; an independent protocol automaton over the mock's log finds concrete failing sequences.",
+        note=TB + "Modelled, not verified: one client handle at a time; concurrency on the state field; device.manager.cpp/loader.c are "
+             "replaced by a stub handing out the mock driver. Stated reading for storage: 'started' = the state the driver last returned. Axioms: none.",
+        technique="Coq proof by induction over call/response histories of a HAL model; differential vs the real HAL with a freeing mock driver under ASan"),
 }
 
 NOT_APPLICABLE = []
